@@ -43,8 +43,8 @@ VENDORS = ["arista", "aruba", "b4com", "cisco", "h3c", "huawei", "iosxr", "junip
 KINDS = {
     "proj-old": "dropping the added items of the diff does not give old restricted to known rows (rows/nesting)",
     "proj-new": "dropping the removed items of the diff does not give new restricted to known rows (rows/nesting)",
-    "proj-old:unchanged-rows-absent": "rows that are identical in old and new are missing from the (unstripped) diff, so old is not reconstructible from it",
-    "proj-new:unchanged-rows-absent": "rows that are identical in old and new are missing from the (unstripped) diff, so new is not reconstructible from it",
+    "proj-old:unchanged-rows-absent": "rows of a %rewrite group that are identical in old and new are missing from the (unstripped) diff, so old is not reconstructible from it",
+    "proj-new:unchanged-rows-absent": "rows of a %rewrite group that are identical in old and new are missing from the (unstripped) diff, so new is not reconstructible from it",
     "proj-new-order": "rows of %ordered rules are not in new's order after dropping removed items",
     "proj-old-order": "rows of %ordered rules that are not reported moved are not in old's order after dropping added items",
     "proj-old-order-literal": "rows of %ordered rules (moved ones included) are not in old's order after dropping added items",
@@ -220,7 +220,11 @@ def check_level(sd, old_r, new_r, path, out):
             missing = [r for r in rows if r not in proj]
             extra = [r for r in proj if r not in rows]
             dup = len(set(proj)) != len(proj)
-            cls = ":unchanged-rows-absent" if (missing and not extra and not dup and all(same_subtree(r) for r in missing)) else ""
+            # the separate class is only the %rewrite case: whole rows of an unchanged %rewrite group are left out of the diff.
+            # Rows missing BELOW a reported block (e.g. an unchanged block returned without its body) are a plain proj-* failure.
+            m = old_map if side == "old" else new_map
+            cls = ":unchanged-rows-absent" if (missing and not extra and not dup and all(
+                same_subtree(r) and m[r][0] == "rewrite" for r in missing)) else ""
             out.append(("proj-%s%s" % (side, cls), dict(here, expected_rows=rows), dict(projected_rows=proj)))
 
     def is_ord(m, row):
